@@ -565,7 +565,7 @@ func runReg(cfg *lib.Config, res *lib.Result, rng *lib.Rng) {
 	cf := regCasesFile()
 	limit, every, nRandom, maxCases := 300, 4, 24, 1200
 	if cfg.Thorough() {
-		limit, every, nRandom, maxCases = 20000, 20, 200, 6000
+		limit, every, nRandom, maxCases = 2000, 12, 60, 6000
 	}
 	runs, complete, programs := 0, 0, 0
 	visit := func(c regCase, r *regResult) {
